@@ -309,8 +309,9 @@ class C07(Prop):
     theorems = ["NV.C07.visibility_table", "NV.C07.visibility_any_flags", "NV.C07.visibility_lifted",
                 "NV.C07.driver_origins_never_refused", "NV.C07.bsearch_correct", "NV.C07.find_function_correct",
                 "NV.C07.find_offsets_are_path_sums", "NV.C07.cache_transparent_step", "NV.C07.cache_transparent",
-                "NV.C07.frame_offsets_correct", "NV.C07.built_alias_flags_agree", "NV.C07.built_flags_agree", "NV.C07.built_inherits_in_world", "NV.C07.inherit_flags_rule_is_spec"]
-    witness_theorems = ["NV.C07.Witness.old_cache_not_transparent"]
+                "NV.C07.frame_offsets_correct", "NV.C07.call_other_origin_is_call_other", "NV.C07.call_origin_consumed",
+                "NV.C07.built_alias_flags_agree", "NV.C07.built_flags_agree", "NV.C07.built_inherits_in_world", "NV.C07.inherit_flags_rule_is_spec"]
+    witness_theorems = ["NV.C07.Witness.old_cache_not_transparent", "NV.C07.Witness.origin_stored_once_runs_static"]
     consts = [("applyCacheBits", "APPLY_CACHE_BITS"),
               ("nameInherited", "NAME_INHERITED"), ("nameUndefined", "NAME_UNDEFINED"),
               ("namePrototype", "NAME_PROTOTYPE"), ("nameDefByInherit", "NAME_DEF_BY_INHERIT"),
